@@ -64,6 +64,16 @@ func convertToComplex(other Object) (Complex, bool) {
 	return 0, false
 }
 
+// What an arithmetic operation answers when its other operand could
+// not be converted: an int too large for a float is an overflow, not
+// an unsupported operand
+func complexConvertFailed(other Object) (Object, error) {
+	if _, ok := other.(*BigInt); ok {
+		return nil, ExceptionNewf(OverflowError, "int too large to convert to float")
+	}
+	return NotImplemented, nil
+}
+
 // Errors
 var complexDivisionByZero = ExceptionTemplatef(ZeroDivisionError, "complex division by zero")
 
@@ -91,7 +101,7 @@ func (a Complex) M__add__(other Object) (Object, error) {
 	if b, ok := convertToComplex(other); ok {
 		return Complex(a + b), nil
 	}
-	return NotImplemented, nil
+	return complexConvertFailed(other)
 }
 
 func (a Complex) M__radd__(other Object) (Object, error) {
@@ -106,14 +116,14 @@ func (a Complex) M__sub__(other Object) (Object, error) {
 	if b, ok := convertToComplex(other); ok {
 		return Complex(a - b), nil
 	}
-	return NotImplemented, nil
+	return complexConvertFailed(other)
 }
 
 func (a Complex) M__rsub__(other Object) (Object, error) {
 	if b, ok := convertToComplex(other); ok {
 		return Complex(b - a), nil
 	}
-	return NotImplemented, nil
+	return complexConvertFailed(other)
 }
 
 func (a Complex) M__isub__(other Object) (Object, error) {
@@ -124,7 +134,7 @@ func (a Complex) M__mul__(other Object) (Object, error) {
 	if b, ok := convertToComplex(other); ok {
 		return Complex(a * b), nil
 	}
-	return NotImplemented, nil
+	return complexConvertFailed(other)
 }
 
 func (a Complex) M__rmul__(other Object) (Object, error) {
@@ -142,7 +152,7 @@ func (a Complex) M__truediv__(other Object) (Object, error) {
 		}
 		return Complex(a / b), nil
 	}
-	return NotImplemented, nil
+	return complexConvertFailed(other)
 }
 
 func (a Complex) M__rtruediv__(other Object) (Object, error) {
@@ -152,7 +162,7 @@ func (a Complex) M__rtruediv__(other Object) (Object, error) {
 		}
 		return Complex(b / a), nil
 	}
-	return NotImplemented, nil
+	return complexConvertFailed(other)
 }
 
 func (a Complex) M__itruediv__(other Object) (Object, error) {
@@ -168,14 +178,14 @@ func (a Complex) M__floordiv__(other Object) (Object, error) {
 	if b, ok := convertToComplex(other); ok {
 		return complexFloor(a / b), nil
 	}
-	return NotImplemented, nil
+	return complexConvertFailed(other)
 }
 
 func (a Complex) M__rfloordiv__(other Object) (Object, error) {
 	if b, ok := convertToComplex(other); ok {
 		return complexFloor(b / a), nil
 	}
-	return NotImplemented, nil
+	return complexConvertFailed(other)
 }
 
 func (a Complex) M__ifloordiv__(other Object) (Object, error) {
@@ -194,7 +204,7 @@ func (a Complex) M__mod__(other Object) (Object, error) {
 		_, r := complexDivMod(a, b)
 		return r, nil
 	}
-	return NotImplemented, nil
+	return complexConvertFailed(other)
 }
 
 func (a Complex) M__rmod__(other Object) (Object, error) {
@@ -202,7 +212,7 @@ func (a Complex) M__rmod__(other Object) (Object, error) {
 		_, r := complexDivMod(b, a)
 		return r, nil
 	}
-	return NotImplemented, nil
+	return complexConvertFailed(other)
 }
 
 func (a Complex) M__imod__(other Object) (Object, error) {
@@ -239,19 +249,19 @@ func complexPow(a, b Complex) (Object, error) {
 
 func (a Complex) M__pow__(other, modulus Object) (Object, error) {
 	if modulus != None {
-		return NotImplemented, nil
+		return complexConvertFailed(other)
 	}
 	if b, ok := convertToComplex(other); ok {
 		return complexPow(a, b)
 	}
-	return NotImplemented, nil
+	return complexConvertFailed(other)
 }
 
 func (a Complex) M__rpow__(other Object) (Object, error) {
 	if b, ok := convertToComplex(other); ok {
 		return complexPow(b, a)
 	}
-	return NotImplemented, nil
+	return complexConvertFailed(other)
 }
 
 func (a Complex) M__ipow__(other, modulus Object) (Object, error) {
@@ -291,6 +301,15 @@ func (a Complex) M__le__(other Object) (Object, error) {
 }
 
 func (a Complex) M__eq__(other Object) (Object, error) {
+	switch other.(type) {
+	case Int, *BigInt:
+		// an int is compared exactly with the real part: it need not
+		// be a value a float can hold, or hold exactly
+		if imag(complex128(a)) != 0 {
+			return False, nil
+		}
+		return Float(real(complex128(a))).M__eq__(other)
+	}
 	if b, ok := convertToComplex(other); ok {
 		return NewBool(a == b), nil
 	}
@@ -298,6 +317,13 @@ func (a Complex) M__eq__(other Object) (Object, error) {
 }
 
 func (a Complex) M__ne__(other Object) (Object, error) {
+	switch other.(type) {
+	case Int, *BigInt:
+		if imag(complex128(a)) != 0 {
+			return True, nil
+		}
+		return Float(real(complex128(a))).M__ne__(other)
+	}
 	if b, ok := convertToComplex(other); ok {
 		return NewBool(a != b), nil
 	}
